@@ -70,7 +70,8 @@ def render_text(case):
             T.append('%sstring "%s"' % (lab, esc(decl[i - 1])))
         else:
             T.append("pr%d: proto" % i)
-    T += ["lah: u8 0", "  lref L1", "  lref L2", "  lref L3", "  endmodule"]
+    T += ["  export d%d" % i for i, x in enumerate(case["xp"], 1) if x]
+    T.append("  endmodule")
     return "\n".join(T) + "\n"
 
 
@@ -93,11 +94,14 @@ def txt_case(idx, case, engine):
                 raise MachineryError("lref labels mismatch in emitted case")
         init = case["decl"][i] if k == "str" else by
         init = case.get("init", {}).get(str(i), init)    # selftest only: declare other bytes than the expected ones
-        L.append("I %d %d %d %d %d %d %d %d %d %d %d %d %d %d %d %d %s %d %s" % (
-            KIND[k], nm, TYPES.index(t) if t else 0, n, d, l1, l2, la[0], la[1], la[2], se[0] if se else -1, tk, ti, VIA[via], ed,
+        L.append("I %d %d %d %d %d %d %d %d %d %d %d %d %d %d %d %d %d %s %d %s" % (
+            KIND[k], nm, TYPES.index(t) if t else 0, n, d, l1, l2, la[0], la[1], la[2], se[0] if se else -1, tk, ti, VIA[via], ed, case["xp"][i],
             len(by), " ".join(map(str, by)), len(init), " ".join(map(str, init))))
     if form:
-        L.append("T " + (case.get("text") or render_text(case)).encode().hex())
+        text = case.get("text") or render_text(case)
+        if engine == 3:          # one-label references for the lazy bb generator (see c14_data.c)
+            text = text.replace("  endmodule\n", "lah: u8 0\n  lref L1\n  lref L2\n  lref L3\n  endmodule\n")
+        L.append("T " + text.encode().hex())
     L.append("E")
     return "\n".join(L)
 
@@ -233,7 +237,7 @@ def replay_all(ck, cases, engine, tag):
 
 TIERS = {
     # (cfg, nparts, engines for the sequences with label references besides the interpreter)
-    "quick": [("MIRData_mc.cfg", 1, (1,))],
+    "quick": [("MIRData_mc.cfg", 1, (1, 3))],
     "thorough": [("MIRData_mc.cfg", 1, (1, 2, 3)), ("MIRData_t2.cfg", 1, (1, 2, 3)), ("MIRData_t.cfg", 6, ())],
 }
 
